@@ -10,6 +10,8 @@ pub struct SerLog {
   pub ids: Vec<u32>,
   pub ended: u32,
   pub bad: bool,
+  /// elements are expected as `serialize_u8` calls (a `MiniVec<u8>`), recorded in `ids`
+  pub u8_mode: bool,
 }
 impl SerLog {
   /// driven as exactly one complete sequence with a truthful (or absent) length hint?
@@ -52,6 +54,15 @@ impl<'a> Serializer for Rec<'a> {
       Err(SErr)
     }
   }
+  fn serialize_u8(self, v: u8) -> Result<(), SErr> {
+    if self.elem && self.log.u8_mode {
+      self.log.ids.push(v as u32);
+      Ok(())
+    } else {
+      self.log.bad = true;
+      Err(SErr)
+    }
+  }
   fn serialize_seq(self, len: Option<usize>) -> Result<RecSeq<'a>, SErr> {
     if self.elem {
       self.log.bad = true;
@@ -64,7 +75,7 @@ impl<'a> Serializer for Rec<'a> {
 
   refuse! {
     serialize_bool(bool); serialize_i8(i8); serialize_i16(i16); serialize_i32(i32); serialize_i64(i64);
-    serialize_u8(u8); serialize_u16(u16); serialize_u64(u64); serialize_f32(f32); serialize_f64(f64);
+    serialize_u16(u16); serialize_u64(u64); serialize_f32(f32); serialize_f64(f64);
     serialize_char(char); serialize_str(&str); serialize_bytes(&[u8]); serialize_none(); serialize_unit();
     serialize_unit_struct(&'static str); serialize_unit_variant(&'static str, u32, &'static str);
   }
